@@ -639,6 +639,53 @@ def job_value(chk, tname, dname):
                        replayer=_replay_len(tname), key=f"C01/{fn}/post")
 
 
+# --------------------------------------------------------------------------------------------- frame (syntactic)
+RAW_OK = {"__str__", "__bytes__", "__array__", "__iter__", "__len__", "__getitem__", "__init__", "_seq", "copy",
+          "to_rich_dict", "parent_coordinates", "annotation_offset", "__deepcopy__"}      # view-aware by construction
+RAW_KNOWN = {("core.sequence", "Sequence", "replace")}                                   # known finding C01-K1
+
+
+def frame_scan(chk):
+    """a method of a Sequence class reaches parent data only through view-aware accessors; a raw self._seq.value /
+    .seq / iteration / replace elsewhere is *suspect* (handed to the bounded tier for a witness), never a violation"""
+    import ast
+    targets = (("cogent3/core/sequence.py", ["SequenceI", "Sequence", "NucleicAcidSequence", "ProteinSequence"]),
+               ("cogent3/core/new_sequence.py", ["Sequence", "NucleicAcidSequenceMixin"]))
+    n_methods = 0
+    for rel, classes in targets:
+        mod = rel[8:-3].replace("/", ".")
+        for cn in classes:
+            try:
+                cls = extract.get(rel, cn)
+            except KeyError:
+                continue
+            for f in cls.body:
+                if not isinstance(f, ast.FunctionDef):
+                    continue
+                n_methods += 1
+                hits = set()
+                for n_ in ast.walk(f):
+                    if isinstance(n_, ast.Attribute) and isinstance(n_.value, ast.Attribute) and n_.value.attr == "_seq" \
+                            and n_.attr in ("value", "seq", "str_value", "array_value", "bytes_value", "replace"):
+                        hits.add("self._seq." + n_.attr)
+                    if isinstance(n_, ast.Call) and isinstance(n_.func, ast.Name) and n_.func.id in ("iter", "list", "tuple") \
+                            and n_.args and isinstance(n_.args[0], ast.Attribute) and n_.args[0].attr == "_seq":
+                        hits.add(n_.func.id + "(self._seq)")
+                    if isinstance(n_, (ast.For, ast.comprehension)) and isinstance(n_.iter, ast.Attribute) and n_.iter.attr == "_seq":
+                        hits.add("iteration over self._seq")
+                if not hits or f.name in RAW_OK:
+                    continue
+                name = f"{mod}.{cn}.{f.name}/frame: parent data reached only through view-aware accessors"
+                if (mod, cn, f.name) in RAW_KNOWN:
+                    chk.notes.append(f"frame: {mod}.{cn}.{f.name} uses {sorted(hits)} (known finding C01-K1)")
+                    continue
+                chk.undecided.append(f"{name} :: SUSPECT raw access {sorted(hits)}: not a violation by itself; the bounded "
+                                     f"contract 'methods' decides whether the method answers as on a rebuilt sequence")
+    chk.obligation("core.sequence+new_sequence/frame-scan-ran", "frame",
+                   lambda n=n_methods: ("proved" if n > 50 else "error", "syntactic", 0.0, None, f"{n} methods scanned"),
+                   function="Sequence classes")
+
+
 def dispatch(chk, jobname, args):
     globals()[jobname](chk, *args)
 
@@ -685,6 +732,9 @@ def run(chk):
     jobs.sort(key=lambda j: -(sum(0 if x else 1 for x in j[1][1]) * 3 + (j[1][2] == "rev") + (j[1][3] == "c<0"))
               if j[0] == "job_getitem_slice" else 0)
     chk.parallel("contracts.C01", "dispatch", jobs)
+    if not only or "frame" in only:
+        frame_scan(chk)
+        chk.discharge(workers=1)
     if not only or "bounded" in only:
         chk.bounded("bounded.C01")
     chk.assume("Python int is unbounded: mathematical integers are exact")
